@@ -4,7 +4,9 @@ Proof: Props/C01Parse.lean (the extracted binding-power table implements the doc
 associativity; print/parse round trip for every expression with any redundant parentheses, and for
 canonical programs), Props/C01Eval.lean (evaluator laws: left-to-right, short-circuit and/or with the
 state after the left operand only, null falsy, loop unrolling with comot/next, call/return, concatenation
-with number formatting, interpolation, division by zero; fuel monotonicity). The reference semantics is
+with number formatting, interpolation, division by zero; fuel monotonicity), Props/C01Accept.lean (a valid
+program is never rejected: lexer round trip + parser round trip + C09's "accepted iff the documented rules
+hold" composed for `Pipeline.frontEnd` / `runSource`; the text runs like the annotated tree). The reference semantics is
 the Lean evaluator model over the Lean front end (Model/Pipeline.lean). Tie: `run` stream (real Runtime vs
 evaluator model on the real front end's annotated AST), the composed Lean pipeline vs the real pipeline on
 program TEXTS (`pipe`), the float self-test of the driver, and a precedence oracle on the real parser that
@@ -14,7 +16,7 @@ import pipelib
 import runlib
 from common import Check
 
-MODULES = ["NaijaVerif.Props.C01Parse", "NaijaVerif.Props.C01Eval"]
+MODULES = ["NaijaVerif.Props.C01Parse", "NaijaVerif.Props.C01Eval", "NaijaVerif.Props.C01Accept"]
 
 
 def run(ck: Check):
